@@ -88,6 +88,8 @@ def make_disk(rng, tmp, tag, layout='mbr-primary'):
         nent = 128
         tsec = nent * esize // 512
         numbers = sorted(rng.sample(range(1, 20), 4))
+        if layout == 'gpt-hybrid':
+            numbers = [2, 3] + sorted(rng.sample(range(4, 20), 2))
         first0 = 2 + tsec + 6
         total = first0 + 4 * L + 40
         disk = bytearray(512 * total)
@@ -101,11 +103,19 @@ def make_disk(rng, tmp, tag, layout='mbr-primary'):
                 '<16s16sQQQ72s', bytes.fromhex('28732ac11ff8d211ba4b00a0c93ec93b'), hashlib.md5(f'{tag}{n}'.encode()).digest(),
                 first, first + L - 1, 0, f'vol {k}'.encode('utf-16-le'))
         disk[1024:1024 + len(table)] = table
+        if layout == 'gpt-hybrid':
+            # a hybrid MBR (as gdisk writes it): 0xEE in slot 1 covering the GPT structures, then two of the GPT partitions
+            # mirrored -- in the OTHER order, so that MBR partition 2 / 3 is GPT partition 3 / 2.  The disk is a GPT disk.
+            disk[446:462] = mbr_entry(0xee, 1, first0 - 1)
+            disk[462:478] = mbr_entry(0x0c, first0 + 1 * L, L)
+            disk[478:494] = mbr_entry(0x0c, first0 + 0 * L, L)
         def header(crc):
             return struct.pack('<8sIII4xQQQQ16sQIII', b'EFI PART', 0x10000, 92, crc, 1, total - 1, first0, total - 34,
                                hashlib.md5(tag.encode()).digest(), 2, nent, esize, zlib.crc32(bytes(table)))
         disk[512:512 + 92] = header(zlib.crc32(header(0)))
     pick = sorted(rng.sample([k for k in range(4) if not (layout == 'mbr-primary' and k == unused)], 2))
+    if layout == 'gpt-hybrid':
+        pick = [0, 1]
     path = os.path.join(tmp, f'{tag}.img')
     with open(path, 'wb') as f:
         f.write(disk)
@@ -221,7 +231,7 @@ def model_correspondence(ctx, RB, rng, boards, where, names):
                 return
 
 
-LAYOUTS = [('mbr-logical', 'gpt'), ('mbr-primary', 'mbr-logical'), ('gpt', 'mbr-primary')]
+LAYOUTS = [('mbr-logical', 'gpt-hybrid'), ('mbr-primary', 'mbr-logical'), ('gpt', 'mbr-primary')]
 
 
 def config_scenario(ctx, R):
